@@ -112,14 +112,32 @@ def run(ctx):
                     ctx.alarm('correspondence', 'pooling size at (%d,%d): implementation (%g, lod %g) vs model (%g, lod %g) for %s'
                               % (i, j, float(px[i, j]), float(lod[i, j]), mp, ml_, rec))
                     break
+    equi_cases = []
     for _ in range(ctx.n(4, 30)):
         h, w = rng.choice([(32, 64), (24, 48)])
-        ang = [rng.uniform(-math.pi, math.pi), rng.uniform(-math.pi / 2, math.pi / 2)]
-        lod = FV.make_equi_pooling_size_map_lod(ang, (h, w), rng.uniform(0.05, 0.5), rng.choice(['quadratic', 'linear']))
+        equi_cases.append((h, w, [rng.uniform(-math.pi, math.pi), rng.uniform(-math.pi / 2, math.pi / 2)], 'random'))
+    # the gaze looks exactly along the direction of a pixel (a user fixating a pixel centre, the poles, the seam): the dot product of the two unit
+    # vectors is 1 up to rounding and may round above it
+    for (h, w) in ((16, 32), (9, 17), (20, 40)):
+        yaw = torch.linspace(-math.pi, math.pi, w)
+        pitch = torch.linspace(-math.pi * 0.5, math.pi * 0.5, h)
+        picks = [(i, j) for i in range(h) for j in range(w)]
+        rng.shuffle(picks)
+        for (i, j) in picks[:ctx.n(40, 400)] + [(0, 0), (h - 1, w - 1), (h // 2, w // 2), (0, w // 2)]:
+            equi_cases.append((h, w, [float(yaw[j]), float(pitch[i])], 'pixel_direction'))
+    for (h, w, ang, kind) in equi_cases:
+        alpha_e, mode_e = rng.uniform(0.05, 0.5), rng.choice(['quadratic', 'linear'])
+        lod = FV.make_equi_pooling_size_map_lod(ang, (h, w), alpha_e, mode_e)
+        pxm = FV.make_equi_pooling_size_map_pixels(ang, (h, w), alpha_e, mode_e)
         ctx.case(('equi', h, w, tuple(ang)), True)
-        if not (torch.isfinite(lod).all() and (lod >= 0).all()):
-            ctx.violation('equirectangular lod map is not finite and non-negative for gaze angles %s' % ang, {'angles': ang, 'size': [h, w]},
-                          {'fn': 'make_equi_pooling_size_map_lod', 'what': 'finite_nonneg'})
+        ctx.count('equi/gaze_' + kind)
+        for nm, mp_ in (('make_equi_pooling_size_map_lod', lod), ('make_equi_pooling_size_map_pixels', pxm)):
+            if not (torch.isfinite(mp_).all() and (mp_ >= 0).all()):
+                nbad = int((~torch.isfinite(mp_)).sum())
+                ctx.violation('equirectangular %s is not finite and non-negative for gaze angles %s on a %dx%d image (%d non-finite pixels)'
+                              % (nm, ang, h, w, nbad), {'angles': ang, 'size': [h, w], 'alpha': alpha_e, 'mode': mode_e},
+                              {'fn': nm, 'what': 'finite_nonneg', 'gaze': kind})
+                break
     # ---------------- radially varying blur is an averaging operator
     for _ in range(ctx.n(6, 40)):
         h, w = rng.choice([(32, 32), (32, 48), (40, 24), (17, 29)])
